@@ -233,6 +233,71 @@ SPELLINGS_REAL = [
 ]
 
 
+def type_pool():
+    base = [B.BOOL, B.INT, B.REAL, B.STRING, B.BV(1), B.BV(3), B.BV(8),
+            ('U', 'S'), ('U', 'T'), ('U', 'Pair', (B.INT, B.BOOL)),
+            ('U', 'Pair', (B.BOOL, B.INT)), ('U', 'Pair', (B.INT, B.INT))]
+    arr = [B.ARR(i, e) for i in (B.INT, B.BV(3), B.BOOL)
+           for e in (B.INT, B.BOOL, B.BV(3), B.REAL)]
+    arr += [B.ARR(B.INT, B.ARR(B.INT, B.INT)),
+            B.ARR(B.ARR(B.INT, B.INT), B.INT)]
+    fun = []
+    for ret in (B.INT, B.REAL, B.BOOL, B.BV(3), ('U', 'S')):
+        for ps in ((B.INT,), (B.REAL,), (B.INT, B.INT), (B.INT, B.REAL),
+                   (B.REAL, B.INT), (B.BV(3),), (B.BV(8),), (('U', 'S'),),
+                   (B.ARR(B.INT, B.INT),), (B.INT, B.INT, B.INT)):
+            fun.append(B.FUN(ret, ps))
+    return base + arr + fun
+
+
+def check_types(rep, rng):
+    """Types are part of the structure of symbols: two type objects are
+    equal (and, being hash-consed, identical) exactly when they denote the
+    same sort; a symbol name is bound to one type per environment."""
+    from pysmt.exceptions import PysmtTypeError
+    env = common.fresh_env()
+    mgr = env.formula_manager
+    pool = type_pool()
+    objs = [(t, B.to_pytype(t, env)) for t in pool]
+    again = [(t, B.to_pytype(t, env)) for t in pool]
+    for (t1, o1), (_, o1b) in zip(objs, again):
+        if o1 != o1b or hash(o1) != hash(o1b):
+            rep.violation('C04/types/not-equal-to-itself', 'type %r built '
+                          'twice gives unequal objects' % (t1,))
+    for i, (t1, o1) in enumerate(objs):
+        for (t2, o2) in objs[i + 1:]:
+            rep.count('type_pairs_compared')
+            if (o1 == o2) != (t1 == t2) or (o2 == o1) != (t1 == t2) or \
+                    (o1 != o2) != (t1 != t2):
+                rep.violation(
+                    'C04/types/equality/%s-vs-%s' % (t1[0], t2[0]),
+                    'types %s and %s compare %s' % (o1, o2, o1 == o2),
+                    None)
+    # one type per symbol name
+    sample = rng.sample(objs, 40)
+    for k, (t1, o1) in enumerate(sample):
+        name = 'c04ty_%d' % k
+        s1 = mgr.Symbol(name, o1)
+        for (t2, o2) in rng.sample(objs, 12) + [(t1, o1)]:
+            rep.count('symbol_redefinitions_tried')
+            try:
+                s2 = mgr.Symbol(name, o2)
+            except PysmtTypeError:
+                if t1 == t2:
+                    rep.violation('C04/types/symbol-same-type-rejected',
+                                  'Symbol(%s, %s) twice raised' % (name, o1))
+                continue
+            if t1 != t2:
+                rep.violation(
+                    'C04/types/symbol-redefined/%s-vs-%s' % (t1[0], t2[0]),
+                    'Symbol(%r, %s) after Symbol(%r, %s) returned %s : %s '
+                    'instead of raising' % (name, o2, name, o1, s2,
+                                            s2.symbol_type()), None)
+            elif s2 is not s1:
+                rep.violation('C04/types/symbol-not-shared', name)
+    rep.case(key='types')
+
+
 def check_spellings(rep, rng):
     for rnd in range(6):
         env = common.fresh_env()
@@ -297,6 +362,9 @@ def check_spellings(rep, rng):
 
 def check_array_get(rep, rng, n):
     for j in range(n):
+        if rep.out_of_time():
+            rep.notes.append('array workload truncated at %d' % j)
+            break
         if j % 50 == 0:
             env = common.fresh_env()
         mgr = env.formula_manager
@@ -432,9 +500,16 @@ def check_normalize(rep, rng, n):
 
 def run(rep):
     M.NODE_MONITOR.install()
+    if rep.shard == 0 and (not rep.only or rep.only == 'testsuite'):
+        # the repository's own tests as one more workload for the
+        # create_node monitor (runs beside the other shards)
+        common.run_repo_tests_monitored(rep, ('C04', 'monitor'))
     quick = rep.tier == 'quick'
     rng = random.Random(rep.seed * 2654435761 % (2 ** 31) + rep.shard)
     only = rep.only
+    # every section gets its share of the time budget
+    until = rep.share
+    until(0.5)
     # blueprint sets: systematic shapes + random, with deliberate duplicates
     if not only or only == 'orders':
         rounds = 6 if quick else 400
@@ -476,8 +551,12 @@ def run(rep):
             check_orders(rep, bps, rng, 4 if quick else 8)
     if (not only or only == 'spellings') and rep.shard % 4 == 0:
         check_spellings(rep, rng)
+    if (not only or only == 'types') and rep.shard % 4 == 1:
+        check_types(rep, rng)
+    until(0.75)
     if not only or only == 'arrays':
         check_array_get(rep, rng, 150 if quick else 20000)
+    until(1.0)
     if not only or only == 'normalize':
         check_normalize(rep, rng, 40 if quick else 20000)
     nm = M.NODE_MONITOR
